@@ -668,6 +668,9 @@ func (p *Program) parseSpecDecl(pkg, rest, src string) error {
 		return err
 	}
 	sf.Body = body
+	if _, dup := p.specFn[pkg+"."+sf.Name]; dup {
+		return fmt.Errorf("spec function %s declared twice in package %s", sf.Name, pkg)
+	}
 	p.specFn[pkg+"."+sf.Name] = sf
 	return nil
 }
